@@ -1,11 +1,12 @@
 /- C07 — property theorems (only). Helper lemmas: Proofs/Names.lean, Proofs/Rename.lean. -/
 import XsdataModel.Proofs.Names
 import XsdataModel.Proofs.Rename
+import XsdataModel.Proofs.RenameClasses
 import XsdataModel.Py.TblEnv
 import XsdataModel.Names.TblUEnv
 
 namespace Props.C07
-open Py Xs.Text Xs.Filters Xs.Rename Proofs.Names Proofs.Rename
+open Py Xs.Text Xs.Filters Xs.Rename Proofs.Names Proofs.Rename Proofs.RenameClasses
 
 /-! ## tables the proofs are about (regenerated from /repo on every run) -/
 
@@ -318,6 +319,39 @@ theorem abstract_suffix_fresh (useNames : Bool) (st : RState) (i : Nat) (c : Cls
     exact ⟨_, rfl, hfree⟩
   · rw [if_neg hcon]
     exact ⟨_, rfl, by simpa using hcon⟩
+
+/-- `RenameDuplicateClasses.should_use_names` -/
+def useNamesOf (style : Str) (cs : List Cls) : Bool :=
+  Tables.requireUniqueNames.contains style || ((cs.map (·.location)).eraseDups.length == 1)
+
+/-- what `RenameDuplicateClasses` is for: afterwards no two classes share a comparison key
+(`alnum` of the name, or of the qualified name when names need not be unique) -/
+def ClassKeysDistinctAfterRename : Prop :=
+  ∀ (style : Str) (cs : List Cls), (∀ c ∈ cs, wfQ c.qname = true) →
+    ((renameClasses style cs).map
+      (fun q => alnum (if useNamesOf style cs then (splitQName q).2 else q))).Nodup
+
+/-- **full strength** (since `add_abstract_suffix` consults the reserved names): for every
+structure style and every list of classes with well-formed qualified names (`{ns}name` with
+non-empty parts, or a name not starting with `{`), all comparison keys are pairwise different
+afterwards. Invariant: the reserved set contains every current key once it is built, every
+rename picks a key outside it, and at most one class per group keeps its key. -/
+theorem class_keys_distinct_after_rename : ClassKeysDistinctAfterRename := by
+  intro style cs hwf
+  have h := renameClasses_nodup_aux (useNamesOf style cs) cs hwf
+  simp only [] at h
+  unfold renameClasses
+  simp only [List.map_map]
+  have hf : ((fun q => alnum (if useNamesOf style cs = true then (splitQName q).2 else q)) ∘ fun c : Cls => c.qname) =
+      K (useNamesOf style cs) := by
+    funext c
+    simp only [Function.comp, K, getter, Cls.name]
+  rw [hf]
+  exact h
+
+example : (∀ c ∈ [(⟨"{urn:x}a".toList, true, true, "l1".toList⟩ : Cls), ⟨"{urn:x}A".toList, false, false, "l2".toList⟩,
+      ⟨"a_abstract".toList, false, false, "l1".toList⟩], wfQ c.qname = true) ∧
+    wfQ "{ns}".toList = false ∧ wfQ "{}a".toList = false := by decide +kernel
 
 /-- the former witness: `a` (abstract element), `A`, `a_abstract` now end with three different keys -/
 example : renameClasses "filenames".toList
